@@ -21,8 +21,11 @@ from pathlib import Path
 
 VERIF = Path(__file__).resolve().parent.parent
 SPEC = VERIF / "spec"
-EVIDENCE = VERIF / "evidence"
-REPLAYS = VERIF / "replays"
+# VERIF_OUT redirects evidence and replay files (used by tools that run checks against scratch worktrees of seeded
+# changes, possibly several at a time, so that they neither clash nor overwrite the evidence of the real tree)
+_OUT = Path(os.environ["VERIF_OUT"]) if os.environ.get("VERIF_OUT") else VERIF
+EVIDENCE = _OUT / "evidence"
+REPLAYS = _OUT / "replays"
 REPO = Path(os.environ.get("VERIF_REPO", "/repo"))
 PY = "/venv/bin/python"
 TLA_CP = "/opt/veriftools/tla/tla2tools.jar:/opt/veriftools/tla/CommunityModules-deps.jar"
@@ -435,7 +438,7 @@ class Report:
             "wall_s": round(wall, 2),
             "violations": len(self.violations),
         }
-        EVIDENCE.mkdir(exist_ok=True)
+        EVIDENCE.mkdir(parents=True, exist_ok=True)
         (EVIDENCE / f"{self.prop}.json").write_text(json.dumps(ev, indent=1, default=str))
         print(
             f"[{self.prop}/{self.tier}] states={self.states} transitions={self.transitions} "
